@@ -50,9 +50,9 @@ package parser
 // the text is exactly the captured runes.
 //@ func (p *parser) pegText(node *node32) string
 //@   requires p != nil && wfPEG(p)
-//@   ensures firstCap(node) == nil ==> result == ""
-//@   ensures firstCap(node) != nil ==> result != ""
-//@   ensures firstCap(node) != nil && plainCap(p, firstCap(node)) ==> result == string(p.buffer[firstCap(node).begin:firstCap(node).end])
+//@   proves firstCap(node) == nil ==> result == ""
+//@   proves firstCap(node) != nil ==> result != ""
+//@   proves firstCap(node) != nil && plainCap(p, firstCap(node)) ==> result == string(p.buffer[firstCap(node).begin:firstCap(node).end])
 //@   loop 1 invariant wfPEG(p) && firstCap(node) == firstCap(n)
 //@   loop 1.1 invariant n != nil && n.pegRule == rulePegText && n.begin <= i && i <= n.end
 //@   loop 1.1 invariant plainCap(p, n) ==> i <= n.end - 1 && len(runes) == i - n.begin && forall j int :: 0 <= j && j < len(runes) ==> runes[j] == p.buffer[n.begin + j]
